@@ -169,8 +169,434 @@ def generate(repo):
     return '\n'.join(lines), info
 
 
+
+# ---------------------------------------------------------------------------------------------------
+# round 3: the declarative parts of the remaining formats (lcapy/expr.py, lcapy/utils.py, lcapy/ratfun.py)
+#
+#   normIdx            Expr.coeffs(norm=True):  `c1 / c[IDX]`            (which coefficient normalises)
+#   baIdx, baA, baB    Expr.ba:  `a = self.D.coeffs(); b = self.N.coeffs(); a0 = a[IDX]`
+#   rfCoeffs           Ratfun.coeffs:  `return Bpoly.all_coeffs(), Apoly.all_coeffs()`  (order of the pair)
+#   degreeFn/Args      Ratfun.degree:  `return max(self.Bpoly.degree(), self.Apoly.degree())`
+#   ndegreeArg, ddegreeArg     Ratfun.Ndegree / Ddegree:  `return self.Bpoly.degree()`
+#   sproper            Ratfun.is_strictly_proper:  `return self.Ddegree > self.Ndegree`  -> [left, op, right]
+#   dtbNumer/Denom/Return      Expr.divide_top_and_bottom:  `N = (self.N / factor).expand()` ... `return N / D`
+#   mtbNumer/Denom/Return      Expr.multiply_top_and_bottom: `N = sym.Mul(N, factor, ...)`, `ID = sym.Pow(D, -1)`, `sym.Mul(N, ID)`
+#   rdMult, rdParts, rdPows, rdOp, rdReturn    Expr.rationalize_denominator
+#   recipIn, recipOut  Expr.recippartfrac: `self.subs(1 / tmpsym)` ... `nexpr.subs(tmpsym, 1 / self.var)`
+#   sfInit, sfFrom, sfOp       Expr.simplify_factors: `result = factors[0]`, `for factor in factors[1:]`, `result *= ...`
+#   stInit, stOp               Expr.simplify_terms:   `result = 0`, `result += ...`
+#   ndMonicDiv, ndMonicD       utils.as_N_D(monic_denominator): `LC = Dpoly.LC()`, `D = Dpoly.monic().as_expr()`, `N = (N / LC)...`
+#   ecReversed, ecDen          Ratfun.expandcanonical: `enumerate(reversed(Bpoly.all_coeffs()))`, `sym.Mul(..., 1 / A)`
+#   polesMerge, listRepeat     Expr.poles: `polesdict[key] += pole.n`;  Expr._fmt_roots._wrap_list: `[...] * n`
+
+OPN = {ast.Div: 'Div', ast.Mult: 'Mult', ast.Add: 'Add', ast.Sub: 'Sub', ast.Gt: 'Gt', ast.Lt: 'Lt', ast.GtE: 'GtE',
+       ast.LtE: 'LtE', ast.Eq: 'Eq', ast.NotEq: 'NotEq', ast.Pow: 'Pow'}
+
+
+def _opn(op):
+    return OPN.get(type(op), type(op).__name__)
+
+
+def _self_attr(n):
+    """`self.X` -> 'X'"""
+    if isinstance(n, ast.Attribute) and isinstance(n.value, ast.Name) and n.value.id == 'self':
+        return n.attr
+    return None
+
+
+def _name(n):
+    return n.id if isinstance(n, ast.Name) else None
+
+
+def _const(n):
+    if isinstance(n, ast.Constant):
+        return n.value
+    if isinstance(n, ast.UnaryOp) and isinstance(n.op, ast.USub) and isinstance(n.operand, ast.Constant):
+        return -n.operand.value
+    return None
+
+
+def _strip_calls(n, names):
+    """peel `X.expand()` / `X.simplify()` ... -> X"""
+    while isinstance(n, ast.Call) and isinstance(n.func, ast.Attribute) and n.func.attr in names and not n.args:
+        n = n.func.value
+    return n
+
+
+def _assigns(fn):
+    """[(target name, value node)] in source order (simple single-name targets, also AugAssign as (name, op, value))"""
+    out = []
+    for n in ast.walk(fn):
+        if isinstance(n, ast.Assign) and len(n.targets) == 1 and isinstance(n.targets[0], ast.Name):
+            out.append((n.lineno, n.targets[0].id, None, n.value))
+        elif isinstance(n, ast.AugAssign) and isinstance(n.target, ast.Name):
+            out.append((n.lineno, n.target.id, _opn(n.op), n.value))
+    out.sort(key=lambda t: t[0])
+    return out
+
+
+def _returns(fn):
+    r = [n for n in ast.walk(fn) if isinstance(n, ast.Return) and n.value is not None]
+    r.sort(key=lambda n: n.lineno)
+    return r
+
+
+def _is_sym_call(n, name):
+    return isinstance(n, ast.Call) and isinstance(n.func, ast.Attribute) and n.func.attr == name and _name(n.func.value) == 'sym'
+
+
+def _inv_of(n, what):
+    """`1 / <what>` where <what> is matched by the predicate"""
+    return isinstance(n, ast.BinOp) and isinstance(n.op, ast.Div) and _const(n.left) == 1 and what(n.right)
+
+
+def scan_fmt(repo):
+    info = {'unparsed': []}
+    bad = info['unparsed'].append
+    trees = {}
+    for f in ('expr.py', 'utils.py', 'ratfun.py'):
+        try:
+            with warnings.catch_warnings():
+                warnings.simplefilter('ignore')
+                trees[f] = ast.parse(open(os.path.join(repo, 'lcapy', f)).read())
+        except Exception as e:   # noqa
+            bad('%s:%s' % (f, e))
+            trees[f] = ast.parse('')
+
+    def methods(tree, cls):
+        c = [n for n in tree.body if isinstance(n, ast.ClassDef) and n.name == cls]
+        return {n.name: n for n in c[0].body if isinstance(n, ast.FunctionDef)} if c else {}
+    E = methods(trees['expr.py'], 'Expr')
+    R = methods(trees['ratfun.py'], 'Ratfun')
+    U = {n.name: n for n in trees['utils.py'].body if isinstance(n, ast.FunctionDef)}
+
+    def need(d, name, tag):
+        fn = d.get(name)
+        if fn is None:
+            bad(tag + name)
+        return fn
+
+    # ---- Expr.coeffs: c1 / c[IDX]
+    info['normIdx'] = None
+    fn = need(E, 'coeffs', 'Expr.')
+    if fn is not None:
+        for n in ast.walk(fn):
+            if isinstance(n, ast.ListComp) and isinstance(n.elt, ast.Call) and n.elt.args:
+                b = n.elt.args[0]
+                if isinstance(b, ast.BinOp) and isinstance(b.op, ast.Div) and isinstance(b.right, ast.Subscript) \
+                        and _name(b.left) == _name(n.generators[0].target) and _name(b.right.value) == _name(n.generators[0].iter):
+                    info['normIdx'] = _const(b.right.slice)
+        if not isinstance(info['normIdx'], int):
+            bad('Expr.coeffs:norm-divisor')
+    # ---- Expr.ba
+    info['baIdx'], info['baA'], info['baB'] = None, '', ''
+    fn = need(E, 'ba', 'Expr.')
+    if fn is not None:
+        for (_, tgt, aug, val) in _assigns(fn):
+            if aug is None and tgt in ('a', 'b') and isinstance(val, ast.Call) and isinstance(val.func, ast.Attribute) \
+                    and val.func.attr == 'coeffs' and _self_attr(val.func.value):
+                info['baA' if tgt == 'a' else 'baB'] = _self_attr(val.func.value)
+            if aug is None and tgt == 'a0' and isinstance(val, ast.Subscript) and _name(val.value) == 'a':
+                info['baIdx'] = _const(val.slice)
+        if not isinstance(info['baIdx'], int) or not info['baA'] or not info['baB']:
+            bad('Expr.ba')
+    # ---- Ratfun.coeffs
+    info['rfCoeffs'] = []
+    fn = need(R, 'coeffs', 'Ratfun.')
+    if fn is not None:
+        alias = {tgt: _self_attr(val) for (_, tgt, aug, val) in _assigns(fn) if aug is None and _self_attr(val)}
+        rets = _returns(fn)
+        if rets and isinstance(rets[-1].value, ast.Tuple):
+            for el in rets[-1].value.elts:
+                if isinstance(el, ast.Call) and isinstance(el.func, ast.Attribute) and el.func.attr == 'all_coeffs':
+                    info['rfCoeffs'].append(alias.get(_name(el.func.value), _self_attr(el.func.value) or '?'))
+        if len(info['rfCoeffs']) != 2 or '?' in info['rfCoeffs']:
+            bad('Ratfun.coeffs')
+    # ---- Ratfun.degree / Ndegree / Ddegree / is_strictly_proper
+
+    def deg_of(n):
+        """`self.Xpoly.degree()` -> 'Xpoly'"""
+        if isinstance(n, ast.Call) and isinstance(n.func, ast.Attribute) and n.func.attr == 'degree' and not n.args:
+            return _self_attr(n.func.value)
+        return None
+    info['degreeFn'], info['degreeArgs'] = '', []
+    fn = need(R, 'degree', 'Ratfun.')
+    if fn is not None:
+        rets = _returns(fn)
+        v = rets[-1].value if rets else None
+        if isinstance(v, ast.Call) and _name(v.func) and all(deg_of(a) for a in v.args) and len(v.args) == 2:
+            info['degreeFn'], info['degreeArgs'] = _name(v.func), [deg_of(a) for a in v.args]
+        else:
+            bad('Ratfun.degree')
+    for key, name in (('ndegreeArg', 'Ndegree'), ('ddegreeArg', 'Ddegree')):
+        info[key] = ''
+        fn = need(R, name, 'Ratfun.')
+        if fn is not None:
+            rets = _returns(fn)
+            info[key] = (deg_of(rets[-1].value) if rets else None) or ''
+            if not info[key]:
+                bad('Ratfun.' + name)
+    info['sproper'] = []
+    fn = need(R, 'is_strictly_proper', 'Ratfun.')
+    if fn is not None:
+        rets = _returns(fn)
+        v = rets[-1].value if rets else None
+        if isinstance(v, ast.Compare) and len(v.ops) == 1 and _self_attr(v.left) and _self_attr(v.comparators[0]):
+            info['sproper'] = [_self_attr(v.left), _opn(v.ops[0]), _self_attr(v.comparators[0])]
+        else:
+            bad('Ratfun.is_strictly_proper')
+    # ---- divide_top_and_bottom / multiply_top_and_bottom
+    for pre, name in (('dtb', 'divide_top_and_bottom'), ('mtb', 'multiply_top_and_bottom')):
+        info[pre + 'Numer'], info[pre + 'Denom'], info[pre + 'Return'] = [], [], []
+        fn = need(E, name, 'Expr.')
+        if fn is None:
+            continue
+        src = {}        # local name -> self attribute it was loaded from (`N = self.N.sympy`)
+        side = {}       # local name -> [attr, op, operand]
+        inv = {}        # local name -> name it is the reciprocal of  (`ID = sym.Pow(D, -1, ...)`)
+        ret = []
+        for (_, tgt, aug, val) in _assigns(fn):
+            v = _strip_calls(val, ('expand', 'simplify'))
+            if isinstance(v, ast.Attribute) and v.attr == 'sympy':
+                v = v.value
+            if aug is None and _self_attr(v):
+                src[tgt] = _self_attr(v)
+            elif aug is None and isinstance(v, ast.BinOp) and _self_attr(v.left) and _name(v.right):
+                side[tgt] = [_self_attr(v.left), _opn(v.op), _name(v.right)]
+            elif aug is None and _is_sym_call(v, 'Mul') and len(v.args) == 2 and _name(v.args[0]) in src and _name(v.args[1]) == 'factor':
+                side[tgt] = [src[_name(v.args[0])], 'Mult', 'factor']
+            elif aug is None and _is_sym_call(v, 'Pow') and len(v.args) == 2 and _name(v.args[0]) and _const(v.args[1]) == -1:
+                inv[tgt] = _name(v.args[0])
+            elif aug is None and _is_sym_call(v, 'Mul') and len(v.args) == 2 and _name(v.args[0]) in side and _name(v.args[1]) in inv:
+                ret = [_name(v.args[0]), 'Div', inv[_name(v.args[1])]]
+        rets = _returns(fn)
+        v = rets[-1].value if rets else None
+        if isinstance(v, ast.BinOp) and _name(v.left) and _name(v.right):
+            ret = [_name(v.left), _opn(v.op), _name(v.right)]
+        if len(ret) == 3 and ret[0] in side and ret[2] in side:
+            # report the sides by the attribute they were built from, in the order numerator-of-result, denominator-of-result
+            info[pre + 'Numer'], info[pre + 'Denom'] = side[ret[0]], side[ret[2]]
+            info[pre + 'Return'] = [side[ret[0]][0], ret[1], side[ret[2]][0]]
+        else:
+            bad('Expr.' + name)
+    # ---- rationalize_denominator
+    info['rdMult'], info['rdParts'], info['rdPows'], info['rdOp'], info['rdReturn'] = '', [], [], '', []
+    fn = need(E, 'rationalize_denominator', 'Expr.')
+    if fn is not None:
+        loc = {}      # local -> description
+        for (_, tgt, aug, val) in _assigns(fn):
+            v = _strip_calls(val, ('expand', 'simplify'))
+            if aug is not None:
+                continue
+            if _self_attr(v):
+                loc[tgt] = ('attr', _self_attr(v))
+            elif isinstance(v, ast.Attribute) and _name(v.value) in loc and v.attr in ('conj', 'real', 'imag', 'real_imag'):
+                if v.attr == 'real_imag':
+                    loc[tgt] = loc[_name(v.value)]          # a re-write of the same value as x + j y
+                else:
+                    loc[tgt] = (v.attr, loc[_name(v.value)])
+            elif isinstance(v, ast.BinOp) and isinstance(v.op, ast.Mult) and _name(v.left) in loc and _name(v.right) in loc:
+                loc[tgt] = ('mul', loc[_name(v.left)], loc[_name(v.right)])
+            elif isinstance(v, ast.BinOp) and isinstance(v.op, (ast.Add, ast.Sub)):
+                parts, pows = [], []
+                for side_ in (v.left, v.right):
+                    if isinstance(side_, ast.BinOp) and isinstance(side_.op, ast.Pow) and isinstance(side_.left, ast.Attribute) \
+                            and loc.get(_name(side_.left.value)) == ('attr', 'D'):
+                        parts.append(side_.left.attr)
+                        pows.append(_const(side_.right))
+                if len(parts) == 2:
+                    loc[tgt] = ('sumsq', _opn(v.op), parts, pows)
+        rets = _returns(fn)
+        v = rets[-1].value if rets else None
+        ok = False
+        if isinstance(v, ast.BinOp) and _name(v.left) in loc and _name(v.right) in loc:
+            n_, d_ = loc[_name(v.left)], loc[_name(v.right)]
+            if n_[0] == 'mul' and n_[1] == ('attr', 'N') and n_[2][0] in ('conj', 'real', 'imag') and n_[2][1] == ('attr', 'D') and d_[0] == 'sumsq':
+                info['rdMult'], info['rdOp'], info['rdParts'], info['rdPows'] = n_[2][0], d_[1], d_[2], d_[3]
+                info['rdReturn'] = ['N', _opn(v.op), 'D']
+                ok = all(isinstance(p, int) for p in d_[3])
+        if not ok:
+            bad('Expr.rationalize_denominator')
+    # ---- recippartfrac
+    info['recipIn'], info['recipOut'] = '', ''
+    fn = need(E, 'recippartfrac', 'Expr.')
+    if fn is not None:
+        tmp = None
+        for (_, tgt, aug, val) in _assigns(fn):
+            if aug is None and isinstance(val, ast.Call) and _name(val.func) == 'miscsymbol':
+                tmp = tgt
+        for (_, tgt, aug, val) in _assigns(fn):
+            if aug is None and isinstance(val, ast.Call) and isinstance(val.func, ast.Attribute) and val.func.attr == 'subs':
+                a = val.args
+                if _name(val.func.value) == 'self' and len(a) == 1:
+                    info['recipIn'] = 'inv' if _inv_of(a[0], lambda n: _name(n) == tmp) else ('id' if _name(a[0]) == tmp else '?')
+                elif len(a) == 2 and _name(a[0]) == tmp:
+                    info['recipOut'] = 'inv' if _inv_of(a[1], lambda n: _self_attr(n) == 'var') else ('id' if _self_attr(a[1]) == 'var' else '?')
+        if info['recipIn'] in ('', '?') or info['recipOut'] in ('', '?'):
+            bad('Expr.recippartfrac')
+    # ---- simplify_factors / simplify_terms
+    info['sfInit'], info['sfFrom'], info['sfOp'] = None, None, ''
+    fn = need(E, 'simplify_factors', 'Expr.')
+    if fn is not None:
+        for (_, tgt, aug, val) in _assigns(fn):
+            if tgt == 'result' and aug is None and isinstance(val, ast.Subscript) and _name(val.value) == 'factors':
+                info['sfInit'] = _const(val.slice)
+            if tgt == 'result' and aug is not None:
+                info['sfOp'] = aug
+        for n in ast.walk(fn):
+            if isinstance(n, ast.For) and isinstance(n.iter, ast.Subscript) and _name(n.iter.value) == 'factors' \
+                    and isinstance(n.iter.slice, ast.Slice) and n.iter.slice.upper is None and n.iter.slice.step is None:
+                info['sfFrom'] = _const(n.iter.slice.lower) if n.iter.slice.lower is not None else 0
+            elif isinstance(n, ast.For) and _name(n.iter) == 'factors':
+                info['sfFrom'] = 0
+        if not isinstance(info['sfInit'], int) or not isinstance(info['sfFrom'], int) or not info['sfOp']:
+            bad('Expr.simplify_factors')
+    info['stInit'], info['stOp'] = None, ''
+    fn = need(E, 'simplify_terms', 'Expr.')
+    if fn is not None:
+        for (_, tgt, aug, val) in _assigns(fn):
+            if tgt == 'result' and aug is None:
+                info['stInit'] = _const(val)
+            if tgt == 'result' and aug is not None:
+                info['stOp'] = aug
+        if not isinstance(info['stInit'], int) or not info['stOp']:
+            bad('Expr.simplify_terms')
+    # ---- utils.as_N_D, monic_denominator branch
+    info['ndMonicDiv'], info['ndMonicD'] = '', ''
+    fn = need(U, 'as_N_D', 'utils.')
+    if fn is not None:
+        for n in ast.walk(fn):
+            if isinstance(n, ast.If) and _name(n.test) == 'monic_denominator':
+                loc = {}
+                for st in n.body:
+                    if isinstance(st, ast.Assign) and len(st.targets) == 1 and isinstance(st.targets[0], ast.Name):
+                        tgt, val = st.targets[0].id, st.value
+                        v = _strip_calls(val, ('as_expr', 'simplify', 'expand'))
+                        if isinstance(v, ast.Call) and isinstance(v.func, ast.Attribute) and not v.args and _name(v.func.value) == 'Dpoly':
+                            loc[tgt] = v.func.attr            # LC / EC / monic
+                            if tgt == 'D':
+                                info['ndMonicD'] = v.func.attr
+                        elif tgt == 'N' and isinstance(v, ast.BinOp) and isinstance(v.op, ast.Div) and _name(v.left) == 'N' and _name(v.right) in loc:
+                            info['ndMonicDiv'] = loc[_name(v.right)]
+        if not info['ndMonicDiv'] or not info['ndMonicD']:
+            bad('utils.as_N_D:monic')
+    # ---- Ratfun.expandcanonical
+    info['ecReversed'], info['ecDen'] = None, ''
+    fn = need(R, 'expandcanonical', 'Ratfun.')
+    if fn is not None:
+        for n in ast.walk(fn):
+            if isinstance(n, ast.For) and isinstance(n.iter, ast.Call) and _name(n.iter.func) == 'enumerate' and n.iter.args:
+                a = n.iter.args[0]
+                if isinstance(a, ast.Call) and _name(a.func) == 'reversed':
+                    info['ecReversed'] = True
+                elif isinstance(a, ast.Call) and isinstance(a.func, ast.Attribute) and a.func.attr == 'all_coeffs':
+                    info['ecReversed'] = False
+            if _is_sym_call(n, 'Mul') and len(n.args) == 2 and _inv_of(n.args[1], lambda m: _name(m) is not None):
+                info['ecDen'] = _name(n.args[1].right)
+        if info['ecReversed'] is None or not info['ecDen']:
+            bad('Ratfun.expandcanonical')
+    # ---- Expr.poles merge / _fmt_roots._wrap_list
+    info['polesMerge'], info['listRepeat'] = '', ''
+    fn = need(E, 'poles', 'Expr.')
+    if fn is not None:
+        for n in ast.walk(fn):
+            if isinstance(n, ast.AugAssign) and isinstance(n.target, ast.Subscript) and _name(n.target.value) == 'polesdict' \
+                    and isinstance(n.value, ast.Attribute) and n.value.attr == 'n':
+                info['polesMerge'] = _opn(n.op)
+        if not info['polesMerge']:
+            bad('Expr.poles:merge')
+    fn = need(E, '_fmt_roots', 'Expr.')
+    if fn is not None:
+        for n in ast.walk(fn):
+            if isinstance(n, ast.FunctionDef) and n.name == '_wrap_list':
+                for m in ast.walk(n):
+                    if isinstance(m, ast.AugAssign) and isinstance(m.op, ast.Add) and isinstance(m.value, ast.BinOp) \
+                            and isinstance(m.value.op, ast.Mult) and isinstance(m.value.left, ast.List) and len(m.value.left.elts) == 1:
+                        info['listRepeat'] = _name(m.value.right) or '?'
+        if info['listRepeat'] != 'n':
+            bad('Expr._fmt_roots:_wrap_list')
+    return info
+
+
+def generate_fmt(repo):
+    info = scan_fmt(repo)
+
+    def sl(xs):
+        return '[%s]' % ', '.join(lstr(str(x)) for x in xs)
+
+    def il(xs):
+        return '[%s]' % ', '.join('(%d : Int)' % x if isinstance(x, int) else '(0 : Int)' for x in xs)
+
+    def iv(x, default=-99):
+        return '%d' % (x if isinstance(x, int) and not isinstance(x, bool) else default)
+    g = info
+    lines = ['/-',
+             '  GENERATED by harness/translate/tx_ratfun.py (scan_fmt) from the source text of /repo/lcapy/expr.py, utils.py, ratfun.py',
+             '  -- do not edit.  Strings are Python `ast` operator / attribute names; -99 / "" / [] = not found.',
+             '-/',
+             'namespace Lcapy.Gen.RatfunFmtSrc',
+             '',
+             '/-- `Expr.coeffs(norm=True)`: `[simplify(c1 / c[normIdx]) for c1 in c]`, `c` highest power first -/',
+             'def normIdx : Int := %s' % iv(g['normIdx']),
+             '/-- `Expr.ba`: `a = self.<baA>.coeffs(); b = self.<baB>.coeffs(); a0 = a[baIdx]` -/',
+             'def baIdx : Int := %s' % iv(g['baIdx']),
+             'def baA : String := %s' % lstr(g['baA']),
+             'def baB : String := %s' % lstr(g['baB']),
+             '/-- `Ratfun.coeffs()`: the pair returned, by polynomial name -/',
+             'def rfCoeffs : List String := %s' % sl(g['rfCoeffs']),
+             '/-- `Ratfun.degree`: `degreeFn(self.<args0>.degree(), self.<args1>.degree())` -/',
+             'def degreeFn : String := %s' % lstr(g['degreeFn']),
+             'def degreeArgs : List String := %s' % sl(g['degreeArgs']),
+             'def ndegreeArg : String := %s' % lstr(g['ndegreeArg']),
+             'def ddegreeArg : String := %s' % lstr(g['ddegreeArg']),
+             '/-- `Ratfun.is_strictly_proper`: `self.<0> <1> self.<2>` -/',
+             'def sproper : List String := %s' % sl(g['sproper']),
+             '/-- `Expr.divide_top_and_bottom(factor)`: each side as [attribute, operator, operand]; the result as [numerator, operator, denominator] -/',
+             'def dtbNumer : List String := %s' % sl(g['dtbNumer']),
+             'def dtbDenom : List String := %s' % sl(g['dtbDenom']),
+             'def dtbReturn : List String := %s' % sl(g['dtbReturn']),
+             '/-- `Expr.multiply_top_and_bottom(factor)` -/',
+             'def mtbNumer : List String := %s' % sl(g['mtbNumer']),
+             'def mtbDenom : List String := %s' % sl(g['mtbDenom']),
+             'def mtbReturn : List String := %s' % sl(g['mtbReturn']),
+             '/-- `Expr.rationalize_denominator()`: `Nnew = N * D.<rdMult>`, `Dnew = D.<p0>**k0 <rdOp> D.<p1>**k1`, `return Nnew / Dnew` -/',
+             'def rdMult : String := %s' % lstr(g['rdMult']),
+             'def rdParts : List String := %s' % sl(g['rdParts']),
+             'def rdPows : List Int := %s' % il(g['rdPows']),
+             'def rdOp : String := %s' % lstr(g['rdOp']),
+             'def rdReturn : List String := %s' % sl(g['rdReturn']),
+             '/-- `Expr.recippartfrac()`: substitution applied before / after the partial-fraction expansion ("inv" = reciprocal) -/',
+             'def recipIn : String := %s' % lstr(g['recipIn']),
+             'def recipOut : String := %s' % lstr(g['recipOut']),
+             '/-- `Expr.simplify_factors()`: `result = factors[sfInit]; for factor in factors[sfFrom:]: result <sfOp>= simplify(factor)` -/',
+             'def sfInit : Int := %s' % iv(g['sfInit']),
+             'def sfFrom : Int := %s' % iv(g['sfFrom']),
+             'def sfOp : String := %s' % lstr(g['sfOp']),
+             '/-- `Expr.simplify_terms()`: `result = stInit; for term in terms: result <stOp>= simplify(term)` -/',
+             'def stInit : Int := %s' % iv(g['stInit']),
+             'def stOp : String := %s' % lstr(g['stOp']),
+             '/-- `utils.as_N_D(monic_denominator=True)`: `D = Dpoly.<ndMonicD>()`, `N = N / Dpoly.<ndMonicDiv>()` -/',
+             'def ndMonicDiv : String := %s' % lstr(g['ndMonicDiv']),
+             'def ndMonicD : String := %s' % lstr(g['ndMonicD']),
+             '/-- `Ratfun.expandcanonical()`: coefficients enumerated low power first (`reversed(all_coeffs())`); each term is divided by <ecDen> -/',
+             'def ecReversed : Bool := %s' % ('true' if g['ecReversed'] else 'false'),
+             'def ecDen : String := %s' % lstr(g['ecDen']),
+             '/-- `Expr.poles()`: `polesdict[key] <polesMerge>= pole.n`;  `_wrap_list`: `[root] * <listRepeat>` -/',
+             'def polesMerge : String := %s' % lstr(g['polesMerge']),
+             'def listRepeat : String := %s' % lstr(g['listRepeat']),
+             '',
+             '/-- unparsed items: %s -/' % (', '.join(info['unparsed']) or 'none'),
+             'def unparsed : List String := %s' % sl(info['unparsed']),
+             '',
+             'end Lcapy.Gen.RatfunFmtSrc', '']
+    return '\n'.join(lines), info
+
+
 if __name__ == '__main__':
     import sys
     t, i = generate(sys.argv[1] if len(sys.argv) > 1 else '/repo')
+    print(t)
+    print(i)
+    t, i = generate_fmt(sys.argv[1] if len(sys.argv) > 1 else '/repo')
     print(t)
     print(i)
